@@ -84,8 +84,9 @@ def gen_thread(r, role, nk, L, wal, tid, st):
             else:
                 ops.append("get %s %s%s" % (db(), key(r, nk), gcopy(r)))
         elif role == "scanner":
-            if not cur:
-                c = r.randrange(2)
+            if not cur or (len(cur) < 2 and x > 0.88):
+                # (a second cursor while the first stays open: registration of a worker that already counts as one)
+                c = r.randrange(2) if not cur else 1 - next(iter(cur))
                 how = r.choice(["bf", "al", "ge", "eq"])
                 d = db()
                 if how in ("ge", "eq"):
@@ -95,7 +96,7 @@ def gen_thread(r, role, nk, L, wal, tid, st):
                 cur[c] = d
                 # a failed open leaves the slot empty: later cursor ops of that slot print `skip`
             else:
-                c = next(iter(cur))
+                c = r.choice(sorted(cur))
                 if x < 0.45:
                     ops.append("cto %d %s" % (c, r.choice(["nx", "nx", "pv"])))
                     ops.append("cget %d" % c)
